@@ -41,10 +41,16 @@ TRUSTED = [
     "and counters each client action can touch); threads, sockets, poll(2) and fork are real only in the correspondence, "
     "which samples them — kernel socket, scheduler and process behaviour is modelled, not verified",
     "modelled, not verified: a decodable REQUEST frame is answered by the guarded `_dispatch_request` (reply or exception) "
-    "and the connection continues — requests that make the server call back to the sender (arguments carrying remote "
-    "references) or that are the protocol's own HANDLE_CLOSE are outside the hostile alphabet; decodable REPLY / "
-    "EXCEPTION frames and 3-element frozensets are resolved by the environment parameter `Env.raises` (the driver reports "
-    "them NOT-MODELLED and the harness skips the case); zlib is an environment parameter",
+    "and the connection continues - except the protocol's own HANDLE_CLOSE with no arguments, which the model classifies "
+    "as the end of that connection; requests whose arguments carry remote references (the server calls back to the sender) "
+    "are sent by the harness's own `x` / `u` operations only; unsolicited REPLY / EXCEPTION frames are dropped "
+    "(`_deliver_response` keeps decode failures to itself); replies carrying remote references, 3-element frozensets and "
+    "payloads outside the brine model are resolved by the environment parameter `Env.raises`: the driver reports them "
+    "NOT-MODELLED and the case is run on the real server and judged by the direct oracle instead; zlib is an environment "
+    "parameter",
+    "quiescent states only: each client action is run to the point where every thread is blocked again; interleavings "
+    "inside one action (other than the gated ones the harness builds: a blocking on_disconnect, a slow service "
+    "constructor) are sampled by the runtime, not enumerated",
     "a request whose handler calls back into the client that sent it (by-reference arguments: `u` / `x` operations) is one "
     "frame to the model, answered when the callbacks are - whatever the client answers them with, exception replies naming "
     "KeyboardInterrupt / SystemExit / GeneratorExit / BaseException / StopIteration included (`x` with the answers from "
@@ -63,7 +69,11 @@ TRUSTED = [
     "run time for the duration of a case, never in /repo)",
 ]
 ASSUMPTIONS = [
-    "descriptor / memory exhaustion (resource limits) is out of scope",
+    "descriptor / memory exhaustion (resource limits), and `spawn()` / `os.fork()` failing under thread or process limits "
+    "(they propagate out of `_accept_method` and end the accept loop), are out of scope; so is latency (the 0.2 s sleeps of "
+    "the pool's catch-alls under a stream of undecodable frames)",
+    "`dict(self.protocol_config, ...)` is a shallow copy: mutable VALUES of a user-supplied protocol_config would be shared "
+    "between connections; the harness's configurations have none",
     "a pool has at least one worker thread; server kinds of the quantifier: threaded, pool, forking",
     "KNOWN FINDINGS carried by the model (pool server only): (a) >= nbThreads clients holding an incomplete frame open "
     "occupy every worker: C16_pool_counterexample, signature C16:pool:>=nbThreads-incomplete-frame-clients; (b) with an "
@@ -71,8 +81,9 @@ ASSUMPTIONS = [
     "signature C16:pool:auth-stall-blocks-accept.  `good_client_unaffected` / `accept_survives` are proved for the pool "
     "under exactly the negations of these two conditions",
 ]
-EXPLANATION = ("Theorems for every sequence of client actions including arbitrary byte strings: accept_survives (threaded, "
-               "forking; pool unless an authentication is stalled), good_client_unaffected (threaded, forking: every other "
+EXPLANATION = ("Theorems for every sequence of client actions including arbitrary byte strings, reused descriptor numbers and "
+               "blocking hooks: accept_survives / new_client_served (threaded, forking; pool unless an authentication is "
+               "stalled), good_client_unaffected for arbitrary requests of the good client (threaded, forking: every other "
                "client only ever changes its own record; pool: while a worker is free at every point), isolation (all "
                "kinds, all histories: service instances and object tables are never shared, a foreign object id does not "
                "resolve); the pool counterexamples are proved and reproduced on the real server on every run.")
@@ -132,7 +143,31 @@ def hostile_corpus():
     out += [frame(bytes([t])) for t in (0x07, 0x09, 0x1c, 0xff, 0xf0)]                       # unknown / unused tags
     out += [frame(b""), frame(b"\x00"), frame(payload[:-1]), frame(payload + b"\x00"), frame(payload) * 3,
             frame(payload) + ping[:7], frame(b"\xff" * 5) + frame(payload)]
+    # more frames in one write than the pool serves in one go (requestBatchSize = 10): the connection goes round the queue
+    out += [frame(payload) * 12, frame(payload) * 25, frame(payload) * 10 + frame(b"\xff\xfe"), frame(payload) * 11 + ping[:5]]
+    out += protocol_frames()
     return out
+
+
+def protocol_frames():
+    """well-formed messages a client has no business sending: the protocol's own goodbye as a request (with no arguments it
+    really closes the connection; with one it is a failing request like any other), replies and exception messages nobody
+    asked for - plain, undecodable, naming local references that do not exist, naming BaseException classes"""
+    from rpyc.core import brine, consts as c
+    msgs = [
+        (c.MSG_REQUEST, 3, (c.HANDLE_CLOSE, (c.LABEL_TUPLE, ()))),
+        (c.MSG_REQUEST, 3, (c.HANDLE_CLOSE, (c.LABEL_VALUE, ()))),
+        (c.MSG_REQUEST, 3, (c.HANDLE_CLOSE, (c.LABEL_VALUE, b""))),
+        (c.MSG_REQUEST, 3, (c.HANDLE_CLOSE, (c.LABEL_TUPLE, ((c.LABEL_VALUE, 1),)))),
+        (1.0, 3, (2.0, (2.0, ()))),
+        (c.MSG_REPLY, 9, (c.LABEL_VALUE, 5)), (c.MSG_REPLY, 9, 17), (c.MSG_REPLY, 1, (c.LABEL_LOCAL_REF, 12345)),
+        (c.MSG_REPLY, 0, (c.LABEL_TUPLE, ((c.LABEL_VALUE, 1), (c.LABEL_LOCAL_REF, 7), 5))), (c.MSG_REPLY, (), ()),
+        (c.MSG_EXCEPTION, 9, (("builtins", "KeyboardInterrupt"), (), (), "tb")),
+        (c.MSG_EXCEPTION, 1, (("builtins", "SystemExit"), (1,), (), "tb")),
+        (c.MSG_EXCEPTION, 2, (("os", "system"), ("id",), (), "tb")), (c.MSG_EXCEPTION, 9, 5),
+        (c.MSG_EXCEPTION, 9, (("builtins", "GeneratorExit"), (), (("__class__", 1),), "tb")), (True, 4, (c.HANDLE_PING, 0)),
+    ]
+    return [frame(brine.dump(m)) for m in msgs]
 
 
 def gen_hostile(r, corp):
@@ -158,7 +193,7 @@ def gen_hostile(r, corp):
         return HEADER.pack(n, 0) + payload + b"\n"
     if k == 8:
         return frame(r.bytes(r.range(1, 12)), r.choice([0, 1, 255]))
-    return b"".join(r.choice(corp) for _ in range(2))[:200]
+    return b"".join(r.choice(corp) for _ in range(2))[:600]
 
 
 # ---------------------------------------------------------------------------------------------- cases
@@ -212,6 +247,20 @@ def corpus():
         for n in range(nuses):
             toks += ["x1:%d:%d" % (n, n + 1), "u2:%d" % n, "x1:%d:%d" % (n + 7, n + 3), "u3:%d" % ((n + 5) % nuses)]
         out.append(case_dict(kind, "unix", False, 3, toks + ["p2", "p3"]))
+    pf = protocol_frames()
+    for kind in KINDS:
+        # every one of the protocol's own messages sent by a client that has no business sending it, each on a connection of
+        # its own; the goodbye requests end that connection, everything else is answered or dropped; good clients go on
+        toks = ["c1:g", "p1"]
+        for n, fr in enumerate(pf):
+            toks += ["c%d:g" % (n + 2), raw_tok(n + 2, fr)] + (["p1"] if n % 4 == 3 else [])
+        out.append(case_dict(kind, "tcp", False, 3, toks + ["c50:g", "p50", "p1"]))
+        # more frames in one write than the pool's batch: 12, 25
+        ping_payload = servers.ping_frame()[HEADER.size:-1]
+        out.append(case_dict(kind, "unix", False, 2, ["c1:g", "p1", "c2:g", raw_tok(2, frame(ping_payload) * 12), "p1",
+                                                      raw_tok(2, frame(ping_payload) * 25), "p1", "c3:g",
+                                                      raw_tok(3, frame(ping_payload) * 11 + b"\xff\xff\xff\xff"), "p1", "a3",
+                                                      "p1"]))
     for kind in KINDS:
         # the administrator closes the server in the middle of it all (C17's operation; here it only has to be the model's):
         # garbage handled, an incomplete frame held open, a failed authentication - then close, and what the clients see after
@@ -454,6 +503,9 @@ def correspondence(ctx):
     sessions = dict((k, 0) for k in KINDS)
     believed = 0
     cases = corpus()
+    import pipeline
+    known_now = set(k.get("signature") for k in pipeline.load_known()
+                    if k.get("property") == ID and k.get("status") == "known")
 
     def more():
         # round-robin over the kinds that are still short of hostile sessions
@@ -469,7 +521,18 @@ def correspondence(ctx):
                 break
             agree, lines, exp, bad = compare_case(case)
             if agree is None:
-                c.count("not-modelled(reply/exception/frozenset message: Env.raises)")
+                # the model does not say what dispatching this payload does (a reply carrying by-reference packages, a
+                # 3-element frozenset, a payload outside the brine model): the case is run on the real server all the same and
+                # judged by the direct oracle
+                c.count("not-modelled(Env.raises): judged by the direct oracle")
+                res = oracle_case(case, known_now)
+                if res is not None and res[1] not in known_now:
+                    res = oracle_twice(case, known_now)
+                if res is not None and res[1] not in known_now:
+                    believed += 1
+                    c.disagreements.append(dict(case=case, op_index=None, op="", impl="%s [%s]" % res,
+                                                model="not modelled (Env.raises): judged by the direct oracle",
+                                                note="direct oracle, in-process and twice in fresh processes"))
                 continue
             sessions[case["server"]] += hostile_sessions(case)
             c.evaluations += len(lines)
@@ -765,7 +828,7 @@ def oracle_search(ctx, corr, broken):
         # boundary cases that contain the kind of operation at which model and server parted come first (pool first: it is
         # the kind whose workers are shared)
         letters = set(d["case"]["ops"][d["op_index"]][0] for d in corr.disagreements[:20]
-                      if d.get("op_index") is not None and d["op_index"] < len(d["case"]["ops"]))
+                      if d.get("op_index") is not None and d["op_index"] < len(d["case"].get("ops", [])))
         if letters:
             cases.sort(key=lambda c: (0 if any(t[0] in letters for t in c["ops"]) else 1,
                                       0 if c["server"] == "pool" else 1))
